@@ -1,6 +1,11 @@
 package rules
 
 func init() {
+	property(&Property{ID: "C06",
+		Rules: []string{"K.id", "A1", "K.vv", "K.compare"},
+		Explanation: "tbd",
+		Assumptions: []string{"tbd"},
+	})
 	property(&Property{ID: "C11",
 		Rules: []string{"O2.state", "O3.attach", "O2.removed", "O1.deactivate"},
 		Explanation: "tbd",
